@@ -166,7 +166,7 @@ def run(ctx, model=None):
         p = os.path.join(REPO, "inputs", f)
         if os.path.exists(p):
             check_file(ctx, f[:-3], open(p).read(), model)
-    N = 6 if ctx.quick() else 80
+    N = 6 if ctx.quick() else 400
     for it in range(N):
         k = rng.randint(1, 5)
         games = []
